@@ -219,6 +219,10 @@ pub assume_specification[ <naga::ScalarKind as PartialEq>::eq ](a: &naga::Scalar
 pub assume_specification[ <naga::AddressSpace as PartialEq>::eq ](a: &naga::AddressSpace, b: &naga::AddressSpace) -> (r: bool)
     ensures r == (*a == *b);
 
+// derived Clone of a naga IR struct is a structural copy
+pub assume_specification[ <naga::StructMember as Clone>::clone ](m: &naga::StructMember) -> (r: naga::StructMember)
+    ensures r == *m;
+
 // ---------------- naga::Literal::zero (transcribed from naga 24 proc/mod.rs Literal::new(0, scalar)) ----------------
 pub open spec fn lit_zero(s: naga::Scalar) -> Option<naga::Literal> {
     match (s.kind, s.width) {
